@@ -1346,9 +1346,41 @@ async fn run_big_pull_order(sizes: &[usize], pull_max: u16, pulls_before_more: u
     if first_seen.len() != published.len() { return Err(Fail { prop: "C01", what: format!("{} of {} published messages were delivered within two lease periods of draining", first_seen.len(), published.len()) }); }
     Ok(())
 }
+/// C04 "not before that instant" with two leases whose deadlines lie less than the rounding step apart: when the earlier
+/// one has expired, the later one is still outstanding 1 ms before its own deadline
+async fn run_close_deadlines(offset_ms: u64, gap_ms: u64) -> Result<(), Fail> {
+    let tm = TopicManager::new();
+    let sm = SubscriptionManager::new(Default::default());
+    let topic = tm.create_topic(TopicName::new("p", "cd")).map_err(|_| Fail { prop: "SETUP", what: "create".into() })?;
+    let sub = sm.create_subscription(SubscriptionInfo::new_with_defaults(SubscriptionName::new("p", "cd")), Arc::clone(&topic)).await.map_err(|_| Fail { prop: "SETUP", what: "create sub".into() })?;
+    topic.publish_messages((0..2u8).map(|i| TopicMessage::new(Bytes::from(vec![i]), None)).collect()).await.map_err(|_| Fail { prop: "SETUP", what: "publish".into() })?;
+    tokio::time::advance(Duration::from_millis(offset_ms)).await;
+    for _ in 0..5 { tokio::task::yield_now().await; }
+    let a = sub.pull_messages(1).await.map_err(|_| Fail { prop: "SETUP", what: "pull".into() })?;
+    tokio::time::advance(Duration::from_millis(gap_ms)).await;
+    let b = sub.pull_messages(1).await.map_err(|_| Fail { prop: "SETUP", what: "pull".into() })?;
+    if a.len() != 1 || b.len() != 1 { return Ok(()); }   // hand-out counts are the business of other searches
+    let (da, db) = (a[0].deadline().time(), b[0].deadline().time());
+    if db < da + Duration::from_millis(3) { return Ok(()); }   // same tick: nothing to observe in between
+    tokio::time::advance(db - Duration::from_millis(1) - Instant::now()).await;
+    for _ in 0..10 { tokio::task::yield_now().await; }
+    let st = sub.get_stats().await.map_err(|_| Fail { prop: "SETUP", what: "stats".into() })?;
+    if st.outstanding_messages_count == 0 {
+        return Err(Fail { prop: "C04+C03", what: format!("two deliveries handed out {} ms apart (deadlines {:?} apart): 1 ms before the deadline of the later one it is no longer outstanding (backlog {}): it was requeued together with the earlier one, before its own deadline", gap_ms, db - da, st.backlog_messages_count) });
+    }
+    Ok(())
+}
 fn cmd_wakeup(rounds: usize) -> i32 {
     // every scenario runs; each failing one prints its own WITNESS line
     let mut bad = 0;
+    'cd: for offset in (0..100u64).step_by(7) {
+        for gap in [15u64, 40, 60, 85] {
+            if let Err(e) = rt().block_on(run_close_deadlines(offset, gap)) {
+                println!("WITNESS {{\"kind\":\"wakeup\",{},\"scenario\":\"close_deadlines\",\"observed\":{:?},\"offset_ms\":{},\"gap_ms\":{}}}", prop_json(e.prop), e.what, offset, gap);
+                bad += 1; break 'cd;
+            }
+        }
+    }
     for (sizes, max, pulls) in [(vec![500usize, 500, 500], 2000u16, 1usize), (vec![1500], 1200, 2), (vec![700, 700], 1001, 1), (vec![300, 300], 5000, 1)] {
         if let Err(e) = rt().block_on(run_big_pull_order(&sizes, max, pulls)) {
             println!("WITNESS {{\"kind\":\"wakeup\",{},\"scenario\":\"big_pull_order\",\"observed\":{:?}}}", prop_json(e.prop), e.what);
